@@ -89,8 +89,7 @@ def _command_cases(tier):
         for mode, cfg in itertools.product(MODES, CFGS):
             yield {"requests": [{"spec": spec, "tokens": t, "lenient": mode, "cfg": cfg}], "via": "config"}
     # two requests to ONE command: the configuration is changed before the first or between the two
-    pairs = [(["--foo", "x"], ["a", "b", "c", "d"]), (["--unknown"], ["y"]), (["a", "b", "c", "d"], ["--bar"]),
-             (["--", "--foo"], ["--unknown"])]
+    pairs = [(["--foo", "x"], ["a", "b", "c", "d"]), (["--unknown"], ["y"])]
     for (t1, t2) in pairs if tier == "quick" else itertools.product(POOL_TOKENS, repeat=2):
         for m1, c1, m2, c2 in itertools.product(MODES, CFGS, MODES, CFGS):
             if c1 is None and c2 is None and tier == "quick":
